@@ -53,7 +53,10 @@ Definition o_panic : obs := (4, 0).
 (* operations on a "world": a current environment and at most one other environment
    (the original or the clone after [Environment::clone]) *)
 Inductive wop :=
-| WStore (o : sop)                    (* store operation on the current environment; OGet = get_template + render *)
+| WStore (o : sop)                    (* store operation on the current environment; OGet = get_template + render (call 0) *)
+| WRender (rc : Z) (n : name) (now : Z)
+                                      (* get_template + a render call [rc]: which context is passed, where the output goes
+                                         (String / a writer that fails), on which thread *)
 | WRegAdd (k : rk) (nm w : Z)         (* add_filter / add_test / add_function: name nm, function identity w *)
 | WRegRemove (k : rk) (nm : Z)        (* remove_filter / remove_test / remove_global *)
 | WClone                              (* other := clone of current (continuing on either copy) *)
